@@ -56,6 +56,7 @@ const (
 	KFunc0       Kind = "func()"
 	KFuncS       Kind = "func(string)"
 	KFuncI       Kind = "func(int)"
+	KFuncSS      Kind = "func([]string)" // aggregate parameter: every call gets a fresh one-element slice
 	KFunc0E      Kind = "func() error"
 	KFuncSE      Kind = "func(string) error"
 )
@@ -182,6 +183,7 @@ var kindTypes = map[Kind]reflect.Type{
 	KFunc0:       reflect.TypeOf((func())(nil)),
 	KFuncS:       reflect.TypeOf((func(string))(nil)),
 	KFuncI:       reflect.TypeOf((func(int))(nil)),
+	KFuncSS:      reflect.TypeOf((func([]string))(nil)),
 	KFunc0E:      reflect.TypeOf((func() error)(nil)),
 	KFuncSE:      reflect.TypeOf((func(string) error)(nil)),
 }
@@ -207,7 +209,7 @@ func (k Kind) Elem() Kind {
 		return Kind(string(k)[2:])
 	case k.IsPtr():
 		return Kind(string(k)[1:])
-	case k == KFuncS || k == KFuncSE:
+	case k == KFuncS || k == KFuncSE || k == KFuncSS:
 		return KString
 	case k == KFuncI:
 		return KInt
@@ -1083,6 +1085,11 @@ func (bl *builder) initOpt(o *Opt, f reflect.Value) {
 		return
 	case KFuncI:
 		f.Set(reflect.ValueOf(func(n int) { b.CbLog = append(b.CbLog, CbEntry{Opt: id, Arg: n}) }))
+		return
+	case KFuncSS:
+		f.Set(reflect.ValueOf(func(ss []string) {
+			b.CbLog = append(b.CbLog, CbEntry{Opt: id, Arg: append([]string(nil), ss...)})
+		}))
 		return
 	case KFunc0E:
 		fail := o.CbErr
